@@ -197,7 +197,17 @@ def run(ctx, rep):
             oki = ok_src and ok_n
             detail = f'iterates {show(src, maxd=4)[:80]} limited by {show(n, maxd=3)[:60]}'
         recognised = it is not None and it[0] == 'iter' and it[1] == 'take'
-        rep.ob('R14.2', 'iteration', oki if recognised else None, detail + ('' if oki else ' - expected start.iter_days().take(num_days())'))
+        if it is not None and it[0] == 'app' and it[1].endswith('iter::successors') and it[2]:
+            first = it[2][0]
+            uncond = first[0] == 'enum' and first[2] == 'Some' and first[4] and not any(x and x[0] == 'ite' for x in subterms(first))
+            if uncond:
+                rep.ob('R14.2', 'iteration', False, f'the dates come from successors(Some({show(first[4][0], maxd=3)[:60]}), ..): the first date is '
+                       'emitted without being compared with the end of the range, so an empty range (end before start) yields one day')
+                continue_iter = True
+            else:
+                rep.ob('R14.2', 'iteration', None, detail + ' - a generated sequence: not decided')
+        else:
+            rep.ob('R14.2', 'iteration', oki if recognised else None, detail + ('' if oki else ' - expected start.iter_days().take(num_days())'))
         rep.ob('R14.2', 'same-params', okp and okl and okw, 'single-date API receives the unchanged params, location and no weather'
                if okp and okl and okw else f'arguments: {show(a[0])[:40]}, {show(a[1])[:40]}, weather {show(a[3])[:40]}')
         for (k, v, fn2) in inserts:
